@@ -143,6 +143,118 @@ Theorem C20_udp_history_is_pointwise :
 Proof. exact run_uops_nth. Qed.
 Print Assumptions C20_udp_history_is_pointwise.
 
+(* ---- headline statements at the level of the parsers themselves (clause map: lib/clauses.d/C20.md) ---- *)
+
+(* "parsed to the command, address and port that RFC 1928 assigns them, with the payload left intact" — completeness:
+   EVERY well-formed RFC 1928 conversation (method selection offering X'00', then a supported request with an IPv4,
+   IPv6 or domain-name address) is parsed to exactly that request under EVERY chunking, the reply is 05 00, and the
+   bytes following the request stay unread on the connection *)
+Theorem C20_listener_accepts_every_rfc_request :
+  forall (methods : list byte) q rsv (tail : list byte) cuts,
+  (0 < lenN methods)%N -> (lenN methods < 256)%N -> existsb (fun m => m =? 0)%N methods = true ->
+  listener_cmd_ok (q_cmd q) = true -> wf_addr (q_atyp q) (q_addr q) -> (q_port q < 65536)%N ->
+  rd_obs (run_rd listener_handshake (mkrd (enc_greeting methods ++ enc_request q rsv ++ tail) cuts) []) =
+  Some (Some q, tail, [5; 0]%N).
+Proof. exact listener_accepts_every_rfc_request. Qed.
+Print Assumptions C20_listener_accepts_every_rfc_request.
+
+Theorem C20_adapter_accepts_every_rfc_request :
+  forall (methods : list byte) q rsv (tail : list byte) cuts,
+  (0 < lenN methods)%N -> (lenN methods < 256)%N -> existsb (fun m => m =? 0)%N methods = true ->
+  adapter_cmd_ok (q_cmd q) = true -> wf_addr (q_atyp q) (q_addr q) -> (q_port q < 65536)%N ->
+  adapter_session false None (mkrd (enc_greeting methods ++ enc_request q rsv ++ tail) cuts) =
+  Some {| a_hs_ok := true; a_hs_left := enc_request q rsv ++ tail; a_req := Some q; a_out := [5; 0]%N; a_left := tail |}.
+Proof. exact adapter_accepts_every_rfc_request. Qed.
+Print Assumptions C20_adapter_accepts_every_rfc_request.
+
+(* soundness: whatever Listener.Handshake accepts is, byte for byte, the RFC encoding of the request it returns *)
+Theorem C20_listener_accepts_only_rfc_encodings :
+  forall s cuts q r' out,
+  wf_bytes s -> run_rd listener_handshake (mkrd s cuts) [] = Some (Some q, r', out) ->
+  listener_cmd_ok (q_cmd q) = true /\ wf_addr (q_atyp q) (q_addr q) /\ (q_port q < 65536)%N /\
+  exists glen rlen rsv,
+    firstn (N.to_nat rlen) (skipn (N.to_nat glen) s) = enc_request q rsv /\
+    rest r' = skipn (N.to_nat (glen + rlen)) s.
+Proof. exact listener_accepts_only_rfc_encodings. Qed.
+Print Assumptions C20_listener_accepts_only_rfc_encodings.
+
+(* UDP: an accepted datagram IS RSV RSV 00 ATYP DST.ADDR DST.PORT of what was returned, followed by the payload *)
+Theorem C20_udp_payload_intact :
+  forall d atyp a p data,
+  wf_bytes d -> udp_parse udp_min_current d = Some (atyp, a, p, data) ->
+  wf_addr atyp a /\ (p < 65536)%N /\ exists r0 r1, d = enc_udp r0 r1 atyp a p data.
+Proof. exact udp_parse_payload_intact. Qed.
+Print Assumptions C20_udp_payload_intact.
+
+(* "or rejected with the appropriate reply": no acceptable method -> 05 FF; unsupported command -> REP 07;
+   unsupported address type -> REP 08 (after the method selection), nothing parsed, the connection read no further
+   than the 4-byte fixed part of the request *)
+Theorem C20_listener_rejects_with_mandated_reply :
+  forall s cuts,
+  (forall n, ref_greeting AUTH_NONE s = GNoAcceptable n ->
+     rd_obs (run_rd listener_handshake (mkrd s cuts) []) = Some (None, skipn (N.to_nat n) s, [5; 255]%N)) /\
+  (forall n, ref_greeting AUTH_NONE s = GSelected n ->
+     (ref_request listener_cmd_ok (skipn (N.to_nat n) s) = RCmdUnsupported ->
+        rd_obs (run_rd listener_handshake (mkrd s cuts) []) =
+        Some (None, skipn (N.to_nat (n + 4)) s, [5; 0]%N ++ reply REP_CMD)) /\
+     (ref_request listener_cmd_ok (skipn (N.to_nat n) s) = RAtypUnsupported ->
+        rd_obs (run_rd listener_handshake (mkrd s cuts) []) =
+        Some (None, skipn (N.to_nat (n + 4)) s, [5; 0]%N ++ reply REP_ATYP))).
+Proof. exact listener_rejects_with_mandated_reply. Qed.
+Print Assumptions C20_listener_rejects_with_mandated_reply.
+
+Theorem C20_adapter_rejects_with_mandated_reply :
+  forall auth s cuts,
+  (forall n, ref_greeting (adapter_want auth) s = GNoAcceptable n ->
+     exists o, adapter_session false auth (mkrd s cuts) = Some o /\
+               a_hs_ok o = false /\ a_req o = None /\ a_out o = [5; 255]%N /\ a_left o = skipn (N.to_nat n) s) /\
+  (g_ok (expected_greeting true auth s) = true ->
+     let g := expected_greeting true auth s in
+     (ref_request adapter_cmd_ok (skipn (N.to_nat (g_used g)) s) = RCmdUnsupported ->
+        exists o, adapter_session false auth (mkrd s cuts) = Some o /\ a_req o = None /\
+                  a_out o = g_out g ++ reply REP_CMD /\ a_left o = skipn (N.to_nat (g_used g + 4)) s) /\
+     (ref_request adapter_cmd_ok (skipn (N.to_nat (g_used g)) s) = RAtypUnsupported ->
+        exists o, adapter_session false auth (mkrd s cuts) = Some o /\ a_req o = None /\
+                  a_out o = g_out g ++ reply REP_ATYP /\ a_left o = skipn (N.to_nat (g_used g + 4)) s)).
+Proof. exact adapter_rejects_with_mandated_reply. Qed.
+Print Assumptions C20_adapter_rejects_with_mandated_reply.
+
+(* "the parser never panics" — the part the model carries: (a) parseUDPHeader with Go's indexing made explicit
+   (data[i], data[a:b] panic when out of range) never reaches a panic, for every datagram; (b) every connection
+   program terminates with a result; (c) a successful io.ReadFull(buf[:n]) delivers exactly n bytes, which is what the
+   fixed indices of the TCP parsers (buf[0], buf[1], buf[3], lenBuf[0]) rely on.  PARTIAL: that those literal indices
+   are below the requested sizes is by inspection; Go run-time panics of the TCP parsers are otherwise only observed
+   (the harness recovers and reports any panic). *)
+Definition C20_never_panics_full_statement : Prop :=
+  (forall d, udp_parse_checked udp_min_current d <> UPanic) /\
+  (forall (A : Type) (p : prog A) (r : rd) (out : list byte), run_rd p r out <> None) /\
+  (forall fuel n r got r', (length (rest r) <= fuel)%nat -> read_full fuel n r = RFOk got r' -> lenN got = n).
+
+Theorem C20_never_panics_partial : C20_never_panics_full_statement.
+Proof. exact never_panics_model. Qed.
+Print Assumptions C20_never_panics_partial.
+
+Theorem C20_udp_parse_checked_is_parse :
+  forall mn d, (4 <= mn)%N -> udp_parse_checked mn d = upres_of (udp_parse mn d).
+Proof. exact udp_parse_checked_spec. Qed.
+Print Assumptions C20_udp_parse_checked_is_parse.
+
+(* the length guard is what excludes the panic: with a first check below 4 a 3-byte datagram indexes out of range *)
+Theorem C20_udp_short_guard_refuted : exists d, udp_parse_checked 3 d = UPanic.
+Proof. exact udp_parse_short_guard_refuted. Qed.
+Print Assumptions C20_udp_short_guard_refuted.
+
+(* non-vacuity of the hypotheses of the two completeness theorems *)
+Theorem C20_rfc_request_premises_satisfiable :
+  let methods := [2; 0]%N in
+  let q := {| q_cmd := 1; q_atyp := 3; q_addr := [97; 46; 98]%N; q_port := 443 |} in
+  (0 < lenN methods)%N /\ (lenN methods < 256)%N /\ existsb (fun m => m =? 0)%N methods = true /\
+  listener_cmd_ok (q_cmd q) = true /\ adapter_cmd_ok (q_cmd q) = true /\ wf_addr (q_atyp q) (q_addr q) /\
+  (q_port q < 65536)%N /\
+  enc_greeting methods ++ enc_request q 0 ++ [9; 9]%N = [5;2;2;0; 5;1;0;3;3;97;46;98;1;187; 9;9]%N.
+Proof. exact rfc_request_premises_satisfiable. Qed.
+Print Assumptions C20_rfc_request_premises_satisfiable.
+
 (* the two defects of the pinned tree (repaired by fixes/C20-*.diff), kept as refuted statements about the
    faithful pinned variants *)
 Theorem C20_pinned_udp_short_refuted :
